@@ -71,7 +71,8 @@ REQUIRED = {
             "rigid_steps": 40, "mass_sum_checks": 20, "mass_hessian_vs_assembled_checks": 20, "p1_mass_reference_checks": 3,
             "bc:free": 2, "bc:constrained": 4, "dt_changes": 100, "nonlinear_material_steps": 20,
             "class:momentum_general": 3, "class:trapezoid_energy_arbitrary": 2, "class:trapezoid_energy_consistent": 2,
-            "class:rigid_translation": 2, "class:mass": 2,
+            "class:rigid_translation": 2, "class:mass": 2, "mass_shared_function_space": 8,
+            "stepping_after_other_material_on_same_function_space": 6,
             "class:axisym_momentum": 1, "class:axisym_trapezoid_energy": 2, "class:axisym_rigid_translation": 1, "class:pp_momentum": 3,
             "class:axisym_pp_momentum": 2,
             "steps:axisym": 60, "steps:plane_pp0": 20, "steps:plane_pp1": 10, "steps:axisym_pp0": 10, "steps:axisym_pp1": 10,
@@ -382,9 +383,20 @@ def _run_mass_case(case, res):
         mat = {"name": "lin_linear", "E": cfg.loguniform(rng, 1e-2, 1e6), "nu": float(rng.uniform(0, 0.45)), "density": rho}
         with contextlib.redirect_stdout(io.StringIO()):
             m = cfg.build_material(mat)
+        # a density / material study on ONE function space: another material's dynamics functions are created (and used) on
+        # the same FunctionSpace object first; each object must keep reporting the mass of its own material afterwards
+        rng_d = rng_of(case["seed"] + 7907 * (k + 1))
+        rho_d = rho * cfg.loguniform(rng_d, 3.0, 300.0) ** (1 if rng_d.random() < 0.5 else -1)
+        tagk = "mesh%d:%s:o%d:q%d%s" % (k, kind, order, q, ":axisym" if axisym else "")
+        with contextlib.redirect_stdout(io.StringIO()):
+            m_d = cfg.build_material(dict(mat, density=rho_d, E=mat["E"] * 3.0))
+        dyn_d = Mechanics.create_dynamics_functions(fs, "axisymmetric" if axisym else "plane strain", m_d, Mechanics.NewmarkParameters(gamma=0.5, beta=0.25))
+        _check_mass(res, dyn_d, fs, mesh, rho_d, q, order, tagk + ":first-material-on-shared-function-space", axisym=axisym, beta=0.25)
         dyn = Mechanics.create_dynamics_functions(fs, "axisymmetric" if axisym else "plane strain", m, Mechanics.NewmarkParameters(gamma=0.5, beta=0.25))
-        _check_mass(res, dyn, fs, mesh, rho, q, order, "mesh%d:%s:o%d:q%d%s" % (k, kind, order, q, ":axisym" if axisym else ""), axisym=axisym,
+        _check_mass(res, dyn, fs, mesh, rho, q, order, tagk, axisym=axisym,
                     beta=0.25)
+        _check_mass(res, dyn_d, fs, mesh, rho_d, q, order, tagk + ":first-material-again", axisym=axisym, beta=0.25)
+        res.count("mass_shared_function_space")
         res.count("mass_meshes")
         res.count("mass_order:%d" % order)
         res.count("mass_low_quadrature" if low else "mass_adequate_quadrature")
@@ -465,6 +477,15 @@ def run_case(case):
 
     with contextlib.redirect_stdout(io.StringIO()):
         mat = cfg.build_material(mat_spec)
+    rng_d = rng_of(case["seed"] + 7907)
+    if rng_d.random() < 0.5:
+        # the function space has served another material before (density study on a shared mesh)
+        with contextlib.redirect_stdout(io.StringIO()):
+            mat_d = cfg.build_material(dict(mat_spec, density=rho * cfg.loguniform(rng_d, 3.0, 300.0) ** (1 if rng_d.random() < 0.5 else -1)))
+        decoy = Mechanics.create_dynamics_functions(fs, mode, mat_d, Mechanics.NewmarkParameters(gamma=gamma, beta=beta),
+                                                    pressureProjectionDegree=pp)
+        decoy.compute_element_masses()
+        res.count("stepping_after_other_material_on_same_function_space")
     dyn = Mechanics.create_dynamics_functions(fs, mode, mat, Mechanics.NewmarkParameters(gamma=gamma, beta=beta),
                                               pressureProjectionDegree=pp)
     st = dyn.compute_initial_state()
